@@ -366,3 +366,49 @@ func ReplayFile(path string, scs []*Scenario) (*vsched.Outcome, *Replay, error) 
 	}
 	return nil, &r, fmt.Errorf("unknown scenario %q", r.Scenario)
 }
+
+// Main is the entry point of an explorer harness test function: it explores (or replays) the
+// scenarios according to the environment contract of bin/vcheck and writes the shard result.
+func Main(t interface {
+	Fatalf(string, ...any)
+	Logf(string, ...any)
+}, property string, scs []*Scenario) {
+	env := evidence.GetEnv(property)
+	if env.Replay != "" {
+		o, r, err := ReplayFile(env.Replay, scs)
+		if r != nil && o == nil {
+			fmt.Printf("REPLAY skipped: %v\n", err)
+			return
+		}
+		if err != nil {
+			fmt.Printf("REPLAY error: %v\n", err)
+			return
+		}
+		x := &explorer{sc: &Scenario{}}
+		for _, sc := range scs {
+			if sc.Name == r.Scenario {
+				x.sc = sc
+			}
+		}
+		if x.isViolation(o) {
+			fmt.Printf("REPLAY reproduced: %s: %s %v\n", o.Kind, o.Detail, o.Leaked)
+			for _, l := range o.Log {
+				fmt.Printf("REPLAY log: %s\n", l)
+			}
+			if o.Stack != "" {
+				fmt.Printf("REPLAY stack: %s\n", strings.ReplaceAll(o.Stack, "\n", "\nREPLAY stack: "))
+			}
+		} else {
+			fmt.Printf("REPLAY did not reproduce (outcome %s)\n", o.Kind)
+		}
+		return
+	}
+	sh := evidence.NewShard(env)
+	Run(sh, scs)
+	if err := sh.Finish(); err != nil {
+		t.Fatalf("writing shard result: %v", err)
+	}
+	if sh.NViolations() > 0 || len(sh.Infra) > 0 {
+		t.Fatalf("violations=%d infra=%v", sh.NViolations(), sh.Infra)
+	}
+}
